@@ -37,6 +37,18 @@ func (e *h2eng) streamOver(id uint32) bool {
 	return len(fs) > 0 && (fs[len(fs)-1].EndStream || fs[len(fs)-1].Type == xh2.FrameRSTStream) || e.readerDone || e.goAway() != nil
 }
 
+// runInflowC34: the upload workload (handlers reading request bodies while the client
+// is still sending, client resets in the middle) with C34's white-box invariant on:
+// stream-level WINDOW_UPDATEs are the frames a server queues for a stream whose peer
+// may reset it at any moment.
+func runInflowC34(s *simrt.Sim) {
+	c34Invariant = true
+	defer func() { c34Invariant = false }()
+	runInflow(s)
+}
+
+var c34Invariant bool
+
 func runInflow(s *simrt.Sim) {
 	initCounters()
 	tp := s.Tape
@@ -46,6 +58,9 @@ func runInflow(s *simrt.Sim) {
 	s.SetSelectYield(tp.Chance(1, 2, "selectyield"))
 	s.SetMapOrder(tp.Draw(3, "maporder"))
 	e := newH2(s, "C33")
+	if c34Invariant {
+		s.Invariant(e.queuedForClosedInvariant)
+	}
 	seg := 0
 	if faults {
 		seg = []int{0, 3, 8}[tp.Draw(3, "net.seg")]
